@@ -69,17 +69,27 @@ Proof. vm_compute. repeat split; intros H; discriminate. Qed.
 (* for every assignment of requests to backends and every sequence of answers (resource, error, closed channel, none)
    and cancellations, each taken in before the next: Allocate returns exactly the resources the backends gave to the
    pod, whether it returns an error or not *)
-Theorem c07_allocate_returns_what_was_handed_out : forall acc evs,
-  MgrModel.handed (MgrModel.run acc evs) = MgrModel.got (MgrModel.run acc evs).
+Theorem c07_allocate_returns_what_was_handed_out : forall acc early evs,
+  MgrModel.handed (MgrModel.run acc early evs) = MgrModel.got (MgrModel.run acc early evs).
 Proof. exact MgrProofs.returned_is_handed. Qed.
 Print Assumptions c07_allocate_returns_what_was_handed_out.
 (* hence a failed ADD, rolled back with what Allocate returned, leaves no resource marked as the pod's *)
-Theorem c07_failed_add_leaves_nothing : forall acc evs,
-  MgrModel.failed (MgrModel.run acc evs) = true -> MgrModel.owned_after (MgrModel.run acc evs) = [].
+Theorem c07_failed_add_leaves_nothing : forall acc early evs,
+  MgrModel.failed (MgrModel.run acc early evs) = true -> MgrModel.owned_after (MgrModel.run acc early evs) = [].
 Proof. exact MgrProofs.failed_add_leaves_nothing. Qed.
 Print Assumptions c07_failed_add_leaves_nothing.
 (* non-vacuity: an ADD of two requests, the first answered, the second failing: one resource returned with the error *)
 Example c07_ex_partial :
-  let s := MgrModel.run [1; 2] [MgrModel.EAns 1 0; MgrModel.EAns 2 1] in
+  let s := MgrModel.run [1; 2] 0 [MgrModel.EAns 1 0; MgrModel.EAns 2 1] in
   MgrModel.failed s = true /\ MgrModel.got s = [101] /\ MgrModel.owned_after s = [].
+Proof. vm_compute. repeat split. Qed.
+(* the same when the first answer comes in while the dispatch loop finds no backend for the second request, and when
+   an answer is taken in the instant of the cancellation *)
+Example c07_ex_partial_early :
+  let s := MgrModel.run [1; 0] 1 [] in
+  MgrModel.failed s = true /\ MgrModel.got s = [101] /\ MgrModel.owned_after s = [].
+Proof. vm_compute. repeat split. Qed.
+Example c07_ex_partial_instant :
+  let s := MgrModel.run [1; 1] 0 [MgrModel.EAnsCancel 2 0 true] in
+  MgrModel.failed s = true /\ MgrModel.got s = [102] /\ MgrModel.owned_after s = [].
 Proof. vm_compute. repeat split. Qed.
